@@ -18,7 +18,7 @@ ID = "C11"
 CASES = {"quick": 6000, "thorough": 120000}
 MIN_CASES_PER_SHARD = 50
 CASE_TIMEOUT = 30
-RULE = ("one case = one generated map (3..12 nodes; magnitudes: unit scale, projected metres ~1e7, degrees; classes: random, "
+RULE = ("one case = one generated map (3..12 nodes; magnitudes: unit scale, 2^-10..2^-17 of it, projected metres ~1e7, degrees; classes: random, "
         "dyadic grid, a node millimetres inside a 2-50 km disc at its extreme-longitude point at high latitude, long edges crossing the disc, items within one float32 ulp of the search-box border, items exactly at "
         "the radius) loaded in InMemMap and SqliteMap, optionally with labels added a second time, 20 % with the package logger at DEBUG, 30 % of the SQLite maps in a reused database file that held another map with the same labels, with 4 query points x radii (incl. infinite) x max_elmt; every "
         "nodes_closeto/edges_closeto answer is compared with the model's full scan. Non-trivial = the true answer is neither "
@@ -30,7 +30,7 @@ ANCHORS = [("leuvenmapmatching/map/inmem.py", "InMemMap.nodes_closeto"),
            ("leuvenmapmatching/map/sqlite.py", "SqliteMap.edges_closeto"),
            ("leuvenmapmatching/map/sqlite.py", "SqliteMap.all_nodes"),
            ("leuvenmapmatching/map/sqlite.py", "SqliteMap.all_edges")]
-CELLS = [f"{b}:{q}:{m}" for b in ("inmem", "sqlite") for q in ("nodes", "edges") for m in ("unit", "big", "latlon")]
+CELLS = [f"{b}:{q}:{m}" for b in ("inmem", "sqlite") for q in ("nodes", "edges") for m in ("unit", "big", "latlon", "tiny")]
 FLOORS = {f"cell:{c}": 300 for c in CELLS}
 FLOORS.update({"class:tangent": 40, "class:long_edge": 100, "class:border32": 100, "class:at_radius": 100, "class:infinite": 100,
                "debug_level_maps": 500, "reused_database_files": 800, "reused_database_files_single_inserts": 200, "queries_judged": 8000, "truncations_judged": 1500, "long_edge_through_disc": 60,
@@ -55,10 +55,14 @@ def f32_out(x, up):
 
 
 def gen_case(rng, i, tier):
-    mag = ["unit", "big", "latlon"][i % 3]
+    mag = ["unit", "big", "latlon", "unit", "big", "latlon", "tiny"][i % 7]
     cls = rng.choice(["random", "random", "grid", "long_edge", "border32", "at_radius"])
     n = rng.randint(3, 12)
-    if mag == "unit":
+    if mag == "tiny":
+        # small coordinate units (degrees / kilometres used as planar y-x): unit scale times 2^-k, exactly
+        sc = 2.0 ** -rng.choice([10, 14, 17])
+        base, spread, rs = (0.0, 0.0), 10.0 * sc, [0.5 * sc, 1.0 * sc, 2.0 * sc, 5.0 * sc, 20.0 * sc]
+    elif mag == "unit":
         base, spread, rs = (0.0, 0.0), 10.0, [0.5, 1.0, 2.0, 5.0, 20.0]
     elif mag == "big":
         base, spread, rs = (5e6 + rng.randint(0, 10 ** 6), 1e7 + rng.randint(0, 10 ** 6)), 300.0, [10.0, 50.0, 150.0, 1000.0]
